@@ -16,9 +16,9 @@ Small-scope exhaustive input enumeration in three families, all against the real
    listed entrypoint x argument through ContractEntrypoint.decode / encode and ParameterSection.to/from_python_object; leaf
    types in two rotations (int first / option first; the option leaf is absent, present, present with an empty payload).
  H (process history, on every shard of S, L and E): a shard is a sequence of conversions in one process.  Every item (a type
-   with its values / a parameter type with its calls) is converted (1) in shard order, (2) in the OPPOSITE order in a forked copy
-   of the process taken before the shard (same earlier history), (3) once more after the whole shard (A-B-A).  The three
-   objects of every input must be the same text: the Python object is a function of the type and the value, not of what the
+   with its values / a parameter type with its calls) is converted (1) in shard order, (2) in the OPPOSITE order by the lane's
+   companion process (forked from the worker before its first conversion; it sees the lane's shards in the same sequence, each
+   one back to front), (3) once more after the whole shard (A-B-A).  The three objects of every input must be the same text: the Python object is a function of the type and the value, not of what the
    process converted before (names are "stable for a given type").  Shards hold all annotation placements of one shape, so
    types that differ only in %field or only in :type names sit in the same sequence.
 
@@ -29,7 +29,7 @@ Oracles (the statement; no hand-written expectation):
    ContractEntrypoint: decode(a, e) = obj; encoding obj again (through the root entrypoint, and through the entrypoint that
    obj names when that is a listed one) denotes the same full parameter; decoding that gives obj again;
    ParameterSection.from_python_object(p.to_python_object()) == p.
-   H: object(type, value) identical in shard order, in reverse order (forked copy), and again after the shard.
+   H: object(type, value) identical in shard order, in reverse order (companion process), and again after the shard.
 """
 from __future__ import annotations
 
@@ -45,7 +45,7 @@ LEVEL = 'exploration'
 RULE = ('S: all tree shapes x {pair,or} per inner node x annotation placements x leaf modes x all values; L: all 2-(3-)leaf '
         'pairs/unions over a 21-type leaf palette x value combinations (+ wrappers); E: all or-trees x annotation placements x '
         '(entrypoint, argument); LO: present optional around every palette value in 6 containers; H: every shard also converted in the '
-        'opposite order in a forked copy of the process and once more afterwards, objects compared input by input.  '
+        'opposite order by a companion process and once more afterwards, objects compared input by input.  '
         'non-trivial = distinct (type, value) whose Python object uses an inferred name (prim_N), '
         'nests a composite inside a composite, or goes through a contract-level helper with an unannotated union leaf')
 BOUND = {
@@ -58,11 +58,12 @@ BOUND = {
 ASSUMPTIONS = ['equality of values = equality of their readable Micheline rendering (lazy_diff=None, as ContractData does)',
                'Python objects are compared with ==',
                'entrypoint listing of the E family comes from mc/ref/entrypoints.py (validated by its selftest)',
-               'H compares repr() of the Python objects; the forked copy shares the history of the lane up to the shard, so only '
-               'interference between conversions of the same shard (all annotation placements of one shape / one palette row) is judged']
+               'H compares repr() of the Python objects; worker and companion see the shards of the lane in the same sequence, so mainly '
+               'interference between conversions of the same shard (all annotation placements of one shape / one palette row) is judged; '
+               'without fork() the order comparison is counted as no verdict']
 LEVEL_TEXT = ('exhaustive over every pair/union shape, kind assignment and annotation placement up to the leaf bound, and over '
               'every pair of leaf types from the palette; each value is converted to its Python object and back, and through '
-              'the contract-level helpers; every shard is additionally converted in the opposite order in a copy of the process and '
+              'the contract-level helpers; every shard is additionally converted in the opposite order by a second process and '
               'once more afterwards, so an object that depends on earlier conversions in the process is seen; nothing is sampled')
 
 TZ1 = 'tz1VSUr8wwNhLAzempoch5d6hLRiTh8Cjcjb'
@@ -87,7 +88,7 @@ D_PS_INFERRED = ('ParameterSection.from_python_object rejects the inferred name 
 D_PS_ERR = 'ParameterSection.from_python_object rejects the object produced by to_python_object'
 D_PS_DIFF = 'parameter -> Python object -> parameter changes the value'
 D_HISTORY = ('the Python object of a value depends on which other types were converted earlier in the same process '
-             '(same history, opposite order of the shard)')
+             '(two processes converting one shard in opposite orders disagree)')
 D_DRIFT = 'the Python object of a value changes when its type is built and the value converted again later in the same process'
 
 
@@ -745,48 +746,101 @@ def item_texts(fam, item):
     return out
 
 
-def in_child(fn):
-    """fn() evaluated in a forked copy of this process (same history so far); None when no child can be had."""
+_HELPER = {}     # pid of the owning process -> (request file, answer file, helper pid)
+
+
+def _helper():
+    """The companion process of this process: forked from it before its first conversion (pristine apart from imports), it
+    answers one request per shard - the object texts of every item, converted LAST item first.  One companion per lane, so its
+    history is the lane's shard list in the opposite inner order: deterministic, like the lane's own."""
     import os
     import pickle
+    me = os.getpid()
+    if me in _HELPER:
+        return _HELPER[me]
+    _HELPER.clear()          # entries inherited from a parent process are not ours
     try:
-        rd, wr = os.pipe()
+        req_r, req_w = os.pipe()
+        ans_r, ans_w = os.pipe()
         pid = os.fork()
     except OSError:
+        _HELPER[me] = None
         return None
     if pid == 0:
-        code = 1
         try:
             import gc
-            gc.disable()           # short-lived copy: a collection would only touch (and so copy) every inherited page
-            os.close(rd)
-            data = pickle.dumps(fn())
-            with os.fdopen(wr, 'wb') as f:
-                f.write(data)
-            code = 0
+            gc.freeze()      # inherited objects are never collected here: keeps the collector from touching (copying) their pages
+            os.close(req_w)
+            os.close(ans_r)
+            inp, out = os.fdopen(req_r, 'rb'), os.fdopen(ans_w, 'wb')
+            while True:
+                try:
+                    spec = pickle.load(inp)
+                except EOFError:
+                    break
+                try:
+                    fam, items = shard_items(spec)
+                    texts = [None] * len(items)
+                    for i in range(len(items) - 1, -1, -1):
+                        texts[i] = item_texts(fam, items[i])
+                except Exception:
+                    texts = None
+                pickle.dump(texts, out)
+                out.flush()
         except BaseException:
             pass
         finally:
-            os._exit(code)
-    os.close(wr)
-    with os.fdopen(rd, 'rb') as f:
-        data = f.read()
-    os.waitpid(pid, 0)
+            os._exit(0)
+    os.close(req_r)
+    os.close(ans_w)
+    _HELPER[me] = (os.fdopen(req_w, 'wb'), os.fdopen(ans_r, 'rb'), pid)
+    return _HELPER[me]
+
+
+def _drop_helper():
+    import os
+    h = _HELPER.get(os.getpid())
+    _HELPER[os.getpid()] = None
+    if h:
+        for f in h[:2]:
+            try:
+                f.close()
+            except Exception:
+                pass
+        try:
+            os.waitpid(h[2], 0)
+        except Exception:
+            pass
+
+
+def reverse_request(spec):
+    """Ask the companion for the reversed conversion of a shard; it works while this process does the shard in order."""
+    import pickle
+    h = _helper()
+    if not h:
+        return False
     try:
-        return pickle.loads(data)
+        pickle.dump(tuple(spec), h[0])
+        h[0].flush()
+        return True
     except Exception:
+        _drop_helper()
+        return False
+
+
+def reverse_answer(n):
+    """Texts of the n items from the companion, or None when there is no (usable) answer."""
+    import os
+    import pickle
+    h = _HELPER.get(os.getpid())
+    if not h:
         return None
-
-
-def reverse_texts(fam, items):
-    """Object texts of every item, computed LAST item first in a child process: the same process history up to the shard,
-    the opposite order inside it.  A conversion that is a function of the type and the value gives the same text."""
-    def work():
-        out = [None] * len(items)
-        for i in range(len(items) - 1, -1, -1):
-            out[i] = item_texts(fam, items[i])
-        return out
-    return in_child(work)
+    try:
+        texts = pickle.load(h[1])
+    except Exception:
+        _drop_helper()
+        return None
+    return texts if isinstance(texts, list) and len(texts) == n else None
 
 
 def shard_items(spec):
@@ -803,10 +857,10 @@ def shard_items(spec):
 
 
 def judge_history(r, spec, fam, i, item, fwd, rev, len_after):
-    """fwd = texts in shard order (after items 0..i-1), rev = texts from the reversed child (after items n-1..i+1)."""
+    """fwd = texts in shard order (after items 0..i-1), rev = texts from the companion (after items n-1..i+1)."""
     if rev is None:
         r.no_verdict += 1
-        r.out('history: no child process, order independence not judged')
+        r.out('history: no companion process, order independence not judged')
         return
     r.extra['history_comparisons'] += len(fwd)
     if fwd == rev:
@@ -837,18 +891,19 @@ def judge_drift(r, spec, fam, items, first):
 
 
 def replay_history(case):
+    asked = not case.get('again') and reverse_request(case['spec'])
     fam, items = shard_items(case['spec'])
     i, vi = case['index'], case['vi']
     if case.get('again'):
         first = [item_texts(fam, it) for it in items]
         again = item_texts(fam, items[i])
         return [] if first[i][vi] == again[vi] else [(D_DRIFT, f'type={items[i][0]}: {first[i][vi]} first, {again[vi]} again')]
-    rev = reverse_texts(fam, items)
-    if rev is None:
-        return []
     fwd = None
     for j in range(i + 1):
         fwd = item_texts(fam, items[j])
+    rev = reverse_answer(len(items)) if asked else None
+    if rev is None:
+        return []
     if fwd[vi] != rev[i][vi]:
         return [(D_HISTORY, f'type={items[i][0]} input={items[i][1][vi]}: object {fwd[vi]} in shard order, {rev[i][vi]} in the opposite order')]
     return []
@@ -863,8 +918,8 @@ def run_shard(spec, tier):
     r = Result()
     case = None
     spec = tuple(spec)
+    asked = reverse_request(spec)       # first: the companion is forked before this process has converted anything
     fam, items = shard_items(spec)
-    rev = reverse_texts(fam, items)
     first = []
     for i, item in enumerate(items):
         if fam == 'E':
@@ -874,9 +929,11 @@ def run_shard(spec, tier):
         if fwd is None:
             fwd = item_texts(fam, item)
         first.append(fwd)
-        judge_history(r, spec, fam, i, item, fwd, rev[i] if rev is not None else None, len(items) - 1 - i)
         if i == 0:
             r.sample(case)
+    rev = reverse_answer(len(items)) if asked else None
+    for i, item in enumerate(items):
+        judge_history(r, spec, fam, i, item, first[i], rev[i] if rev is not None else None, len(items) - 1 - i)
     judge_drift(r, spec, fam, items, first)
     if case is not None:
         r.sample(case)
